@@ -18,6 +18,8 @@ SAMPLED (seeded)
     label kinds: 0..N-1, 1..N, random (also negative) ints, strings, floats; isolated nodes added before and
     after the hyperedges; 40 % weighted; one in five is uniform on 0..N-1 (tensor).  300 quick / 3000 thorough.
   * random temporal hypergraphs on <= 6 nodes, <= 7 (time, hyperedge) pairs, times in 0..4.  100 / 1000.
+EDITED OBJECTS: every 7th exhaustive and every 2nd random static input once more, with the object queried once (mapping, incidence,
+  adjacency), edited (remove_node with / without keep_edges, remove_edge, add_edge with a new node) and only then checked.
 ONE STRESS INPUT (outside the <= 7 node scope, deterministic): 10 nodes, the 256 hyperedges {0,1} u S for
   every S c {2..9}: nodes 0 and 1 share 256 hyperedges (adjacency_matrix only).
 
@@ -290,6 +292,26 @@ def build_hg(spec):
             h.add_edge(tuple(e))
     for n in spec.get("post_nodes", []):
         h.add_node(n)
+    if spec.get("then"):
+        # the same object is queried, edited and queried again: a representation computed before the edit must not survive it
+        _, L, _, _ = _lib()
+        with warnings.catch_warnings():
+            warnings.simplefilter("ignore")
+            try:
+                h.get_mapping()
+                L.binary_incidence_matrix(h, return_mapping=True)
+                L.adjacency_matrix(h, return_mapping=True)
+            except Exception:
+                pass
+            for op in spec["then"]:
+                if op[0] == "rm_node":
+                    h.remove_node(op[1], keep_edges=bool(op[2]))
+                elif op[0] == "rm_edge":
+                    h.remove_edge(tuple(op[1]))
+                elif op[0] == "add_edge":
+                    h.add_edge(tuple(op[1]))
+                elif op[0] == "add_node":
+                    h.add_node(op[1])
     return h
 
 
@@ -671,6 +693,26 @@ def random_specs(rng, n):
                    post_nodes=post)
 
 
+def edited_specs(rng, specs, every=3):
+    """Variants of the given inputs in which the object is queried once, then edited (a node removed with or without keeping
+    its hyperedges, a hyperedge removed, a fresh node / hyperedge added), and only then checked."""
+    for i, sp in enumerate(specs):
+        if i % every or sp.get("kind") != "hg" or not sp["edges"]:
+            continue
+        nodes = sorted({a for e in sp["edges"] for a in e} | set(sp.get("pre_nodes", [])) | set(sp.get("post_nodes", [])), key=repr)
+        kind = i // every % 4
+        if kind in (0, 1):
+            then = [["rm_node", rng.choice(nodes), kind]]
+        elif kind == 2:
+            then = [["rm_edge", rng.choice(sp["edges"])]]
+        else:
+            fresh = max((a for a in nodes if isinstance(a, int)), default=0) + 3 if all(isinstance(a, (int, float)) for a in nodes) else "zz_new"
+            then = [["add_edge", [fresh, nodes[0]]]]
+        if sp["weighted"] and then[0][0] == "add_edge":
+            continue
+        yield dict(sp, then=then)
+
+
 def random_temporal_specs(rng, n):
     for _ in range(n):
         N = rng.choice([3, 4, 5, 6])
@@ -716,7 +758,11 @@ def run(ctx):
     ext = list(exhaustive_temporal_specs(tn))
     rnd = list(random_specs(ctx.rng, n_rand))
     rndt = list(random_temporal_specs(ctx.rng, n_rand_t))
-    specs = ex + ext + [STRESS] + rnd + rndt
+    edited = list(edited_specs(ctx.rng, ex, every=7)) + list(edited_specs(ctx.rng, rnd, every=2))
+    specs = ex + ext + [STRESS] + rnd + rndt + edited
+    ctx.count("inputs queried, edited and queried again", len(edited))
+    ctx.rule("edited inputs: every 7th exhaustive and every 2nd random static input once more with the object queried (mapping, incidence, "
+             "adjacency), then edited (remove_node with / without keep_edges, remove_edge, add_edge with a new node) and only then checked")
     ctx.count("exhaustive static inputs", len(ex))
     ctx.count("exhaustive temporal inputs", len(ext))
     ctx.count("random static inputs", len(rnd))
